@@ -13,7 +13,7 @@ for d in sorted(glob.glob(os.path.join(root, '*/patch.diff'))):
     files = subprocess.run(['git', '-C', '/repo', 'diff', '--name-only'], capture_output=True, text=True).stdout.split()
     res = {}
     try:
-        for p in (props or ['C01','C02','C04','C08','C09','C10','C12','C13','C14','C15','C16','C17','C20']):
+        for p in (props or ['C01','C02','C04','C07','C08','C09','C10','C12','C13','C14','C15','C16','C17','C20']):
             c = subprocess.run(['/verif/check', p, '--tier', 'quick'], capture_output=True, text=True, cwd='/verif')
             last = [l for l in c.stdout.splitlines() if l.startswith(('VIOLATION', 'UNDECIDED', 'OK', 'KNOWN'))][-3:]
             res[p] = dict(exit=c.returncode, lines=last if c.returncode else [])
